@@ -266,7 +266,13 @@ def run_case(case):
         unk = {idx_of(rows[i], f1) for i in it.unknown_lines if rows[i]}
         g2 = [x for x in got if x not in unk]
         w2 = [x for x in want if x not in unk]
-        if g2 != w2:
+        if g2 != w2 and _lt_family(comps) and _agrees_with_lte(case, comps, rows, offered, scan_last, got, unk, f1):
+            viol.append({
+                "case": cstr,
+                "diverge": "below/lt/before accept EQUAL operands (behave as <=); with that single change the model agrees on every line",
+                "sig": f"{case['blk']} lt-as-lte {_fnames(comps)}",
+            })
+        elif g2 != w2:
             extra = [x for x in g2 if x not in w2][:4]
             missing = [x for x in w2 if x not in g2][:4]
 
@@ -292,6 +298,22 @@ def run_case(case):
         "fingerprint": run.h64((cstr, o["lines"], o["errors"])),
         "extra": {"unknown_lines_not_asserted": len(it.unknown_lines)},
     }
+
+
+def _lt_family(comps):
+    return any(n[0] == "f" and n[1] in ("below", "lt", "before") for c in comps for n in refinterp.walk(c))
+
+
+def _agrees_with_lte(case, comps, rows, offered, scan_last, got, unk, f1):
+    it2 = refinterp.Interp(comps, case["and"])
+    it2.lt_accepts_equal = True
+    try:
+        ret2 = it2.run(rows, offered, scan_last)
+    except Exception:  # noqa: BLE001
+        return False
+    unk2 = unk | {idx_of(rows[i], f1) for i in it2.unknown_lines if rows[i]}
+    want2 = [idx_of(rows[i], f1) for i in ret2]
+    return [x for x in got if x not in unk2] == [x for x in want2 if x not in unk2]
 
 
 def _fnames(comps):
